@@ -37,8 +37,10 @@ static const profile_t PROFILES[] = {
       0, 0, (1u << P_T) | (1u << P_U), (1u << T_T) | (1u << T_U), (1u << K_FD), 1 },
     { "C18", 2, G_MSG | G_SUB | G_BUCKET | G_ENV | G_BECOME | G_PILL | G_SRC,                RL_BASE | R_PS | R_TB | R_SR,       0, "01000100" "07000100" "07010100" "04000000", 1, 0, 1,
       0, 0, (1u << P_T), (1u << T_T), (1u << K_TMR), 1 },
-    { "C20", 2, G_SRC | G_READY | G_ENV | G_LIFE | G_PILL | G_ARM | G_REFS | G_REG,          RL_BASE | R_SR | R_FD,              1, "01000100", 1, 1, 1,
-      (1u << A_DEREG) | (1u << A_RETAIN) | (1u << A_STOP), (1u << CB_EVT) | (1u << CB_START), 0, 0, (1u << K_FD) | (1u << K_TMR), 0xff },
+    { "C15N", 2, G_LIFE | G_ARM | G_QUIT,                                                    RL_BASE | R_NM,                     2, "01000100" "07000103" "07010100", 1, 0, 1,
+      (1u << A_CTXCALL) | (1u << A_START) | (1u << A_STOP) | (1u << A_DEREG), 0xf, 0, 0 },
+    { "C20", 2, G_SRC | G_READY | G_ENV | G_LIFE | G_PILL | G_ARM | G_REFS | G_REG,          RL_BASE | R_SR | R_FD,              1, "01000100" "07000100" "07010100" "04000000", 1, 1, 1,
+      (1u << A_DEREG) | (1u << A_RETAIN) | (1u << A_STOP), (1u << CB_EVT) | (1u << CB_START), 0, 0, (1u << K_FD) | (1u << K_TMR), 0x3f, 2 },
     { "C04", 2, G_LIFE | G_REG | G_MSG | G_SUB | G_BCAST | G_AUTOFREE | G_PILL | G_ARM | G_QUIT | G_STASH | G_BECOME | G_SRC | G_READY | G_ENV | G_REFS | G_FAULT | G_BATCH,
       RL_BASE | R_PS | R_FREE | R_SH | R_HD | R_SR | R_PILL | R_EV, 2, "01000100" "07000100" "07010100" "04000000", 1, 1, 1,
       (1u << A_STOP) | (1u << A_DEREG) | (1u << A_PAUSE) | (1u << A_UNSUB) | (1u << A_TELL) | (1u << A_PUB) | (1u << A_STASH) | (1u << A_UNSTASH) | (1u << A_RETAIN) | (1u << A_QUIT),
@@ -106,6 +108,8 @@ static void exec_one(const hist_t *h, int probe) {
     }
     world_cleanup();
     if (lg_live || shim_open_lib_fds()) vfail("INTERNAL", "INTERNAL|unclean", "execution ended without a violation but not clean");
+    { static int base_fds = -1; int n = 0; for (int fd = 0; fd < 256; fd++) if (fcntl(fd, F_GETFD) != -1) n++;       /* the executor itself must not accumulate descriptors */
+      if (base_fds < 0) base_fds = n; else if (n != base_fds) vfail("INTERNAL", "INTERNAL|fd-drift", "executor has %d open descriptors, %d after its first execution", n, base_fds); }
     write_all(res_fd, line);
 }
 
